@@ -85,3 +85,42 @@ func RunNodes() {
 		c01.CompareResult(b, r, err, want, false, m.src)
 	}
 }
+
+var varMenu []nodeEntry
+
+func setupVarMenu() {
+	if varMenu != nil {
+		return
+	}
+	v := spec.Var{Local: "v"}
+	for _, ast := range []spec.Expr{
+		spec.Fn("string", v), spec.Fn("number", v), spec.Bin{Op: "+", L: v, R: spec.Num{V: 0}},
+		spec.Fn("concat", v, spec.Str{V: "|"}), spec.Fn("boolean", v), spec.Fn("string-length", v),
+		spec.Bin{Op: "=", L: v, R: spec.Str{V: "t1"}}, spec.Fn("starts-with", v, spec.Str{V: "t"}),
+	} {
+		src := spec.Render(ast)
+		g := xsel.MustBuildExpr(src)
+		varMenu = append(varMenu, nodeEntry{src: src, ast: ast, g: &g})
+	}
+}
+
+// RunNodeSetVariable: a node-set bound to a variable in whatever order the
+// caller built it converts through its first node in DOCUMENT order: every
+// sequence of 3 (thorough: 4) distinct element nodes of the skeleton document.
+func RunNodeSetVariable() {
+	b := hx.Skeleton()
+	nd.Assert(b.TieOK, "store-mirrors-script")
+	n := 3
+	if nd.Tier() > 0 {
+		n = 3 + nd.Choice(2)
+	}
+	ns, set := hx.PickOrdered(b, b.Elements(), n)
+	bind := &spec.Bindings{NS: map[string]string{}, Vars: map[string]spec.Val{"v": {T: spec.TSet, Set: set}}}
+	nd.Reach("node-set-variable")
+	for k := range varMenu {
+		m := &varMenu[k]
+		r, err := xsel.Exec(b.Root, m.g, xsel.WithVariable("v", ns))
+		want := b.Doc.Eval(m.ast, spec.Ctx{Node: 0, Pos: 1, Size: 1}, bind)
+		c01.CompareResult(b, r, err, want, false, m.src)
+	}
+}
